@@ -487,7 +487,9 @@ class Dendrogram(object):
         if not isinstance(other, Dendrogram):
             return False
 
-        if not (self.data == other.data).all():
+        # element-wise equal data, NaNs in the same places (array_equal is
+        # also False, rather than an error, when the shapes differ)
+        if not np.array_equal(self.data, other.data, equal_nan=True):
             return False
 
         if self.params['min_value'] != other.params['min_value']:
